@@ -111,7 +111,7 @@ def run(pid, tier, seed):
         s0 = [dict(e) for e in cand[len(cand) // 2]]
         for e in s0:
             if e["ev"] == "ret" and e["res"] == "timeout":
-                e["at"] = -5      # a timeout before the deadline
+                e["at"] = -2000000000      # a timeout long before any deadline of the run
                 break
         ok, hw, _ = vlib.validate_trace("rdl", "TraceRDL", "TraceRDL.cfg", s0)
         if ok:
